@@ -73,3 +73,14 @@ package vm
 //@ spec fun eqCore(x reflect.Value, y reflect.Value) bool = ite(rvKind(x) == reflect.Int64 && rvKind(y) == reflect.Int64, rvInt(x) == rvInt(y), ite(rvKind(x) == reflect.String && rvKind(y) == reflect.String, rvStr(x) == rvStr(y), ite(rvKind(x) == reflect.Bool && rvKind(y) == reflect.Bool, rvBool(x) == rvBool(y), ite(corePair(x, y), feq(asF(x), asF(y)), eqOther(x, y)))))
 //@ spec fun eqV(a reflect.Value, b reflect.Value) bool = ite(nilV(a) || nilV(b), nilV(a) && nilV(b), eqCore(eqD(a), eqD(b)))
 //@ lemma [C06] eqV-symmetric: forall a RV, b RV :: eqV(a, b) == eqV(b, a)
+
+// ---------------------------------------------------------------------------
+// evaluation order (C07), over the activation trace of direct invokeExpr calls
+// truthyV(v): truthiness of a value (what toBool computes); its case table is the contract of tryToBool
+//@ spec fun truthyV(v reflect.Value) bool
+// evalsPrefix(s): the operands evaluated so far are s[0], s[1], ... in order, each exactly once
+//@ spec fun evalsPrefix(s []ast.Expr) bool = forall k int :: 0 <= k && k < ncalls() ==> calleeIs(k, "invokeExpr") && arg(k) == s[k]
+// okButLast(): evaluation stopped at the first operand that failed
+//@ spec fun okButLast() bool = forall k int :: 0 <= k && k < ncalls() - 1 ==> res(k) == nil
+// ASSUMPTION (parser): a map literal has as many values as keys
+//@ axiom auto_wfMapExprVM: forall m *ast.MapExpr :: m != nil ==> len(m.Keys) == len(m.Values)
